@@ -18,8 +18,9 @@ import (
 // C04 — tracked position only moves forward and equals the furthest settled event.
 
 type AckSeqParams struct {
-	Resume uint64 `json:"resume"` // stored checkpoint the session resumes from (0 = none)
-	Len    int    `json:"len"`
+	Resume   uint64 `json:"resume"` // stored checkpoint the session resumes from (0 = none)
+	Len      int    `json:"len"`
+	SysEvent bool   `json:"sys_event"`
 }
 
 type RangeParams struct {
@@ -69,6 +70,7 @@ func init() {
 			return []Instance{
 				{Scenario: "c04_ackseq", Params: mustJSON(AckSeqParams{Resume: 0, Len: l}), Bound: 0, Shards: 4},
 				{Scenario: "c04_ackseq", Params: mustJSON(AckSeqParams{Resume: 2, Len: l}), Bound: 0, Shards: 4},
+				{Scenario: "c04_ackseq", Params: mustJSON(AckSeqParams{Resume: 0, Len: l, SysEvent: true}), Bound: 0, Shards: 8, Note: "alphabet extended by a non-document event (seqno-advanced) that settles itself"},
 				{Scenario: "c04_range", Params: mustJSON(RangeParams{Commit: true}), Bound: 0},
 				{Scenario: "c04_range", Params: mustJSON(RangeParams{Commit: false}), Bound: 0},
 				{Scenario: "c04_range", Params: mustJSON(RangeParams{Commit: true, Still: true}), Bound: 0},
@@ -78,6 +80,7 @@ func init() {
 				{Scenario: "c04_race", Params: mustJSON(RaceParams{WithSaver: false}), Bound: b, Shards: 4},
 				{Scenario: "c04_race", Params: mustJSON(RaceParams{WithSaver: true}), Bound: b, Shards: 8},
 				{Scenario: "c16_hist", Params: mustJSON(MetricParams{Depth: 3}), Bound: 0, Shards: 8, Note: "the position exposed through the metrics equals the tracked one after every step, also in the sessions after a rebalance"},
+				{Scenario: "reopen_life", Params: mustJSON(LifeParams{Oracle: "position", Segs: 2, AckDuringReopen: true}), Bound: 0, Shards: 8, Note: "the same with an acknowledgement arriving while the re-open request is in flight"},
 				{Scenario: "reopen_life", Params: mustJSON(LifeParams{Oracle: "position", Segs: 2}), Bound: 0, Shards: 8, Note: "acknowledgements of events delivered before a transient end / fail-over / rollback arriving after the re-open (stale acknowledgements naming the old branch), in every combination with acknowledgements of the new segment"},
 			}
 		},
@@ -117,8 +120,23 @@ func ackSeqMain(p AckSeqParams) {
 		return gocbcore.SimAnswer{}
 	}
 	for step := 0; step < p.Len; step++ {
-		op := vrt.Choose(len(delivered)+2, true, "ack-op")
-		if op == len(delivered)+1 {
+		nops := len(delivered) + 2
+		if p.SysEvent {
+			nops++
+		}
+		op := vrt.Choose(nops, true, "ack-op")
+		if op == len(delivered)+2 {
+			// a non-document event (seqno-advanced) settles itself: the position moves to it, and the next save
+			// writes it - also when nothing else was acknowledged since the last save
+			s := c.Vb[0].High + 1
+			c.Append(0, marker(s, s), symbolPacket("SEQ", s))
+			c.WaitIdle()
+			vrt.Quiesce()
+			if s > want {
+				want = s
+			}
+			hist = append(hist, fmt.Sprintf("seqno-advanced(%d)", s))
+		} else if op == len(delivered)+1 {
 			// a save the store rejects: nothing may be forgotten, the next successful save writes the position
 			before, _ := e.StoredSeq(0)
 			failSave = true
